@@ -234,6 +234,29 @@ def finished (ns : NState) (r : Runner) : Bool :=
     (match ns.members[r.1]? with | some M => pcOf M r.2 == .done | none => true)
   else (match ns.sets[r.1 - ns.members.length]? with | some S => pcOf S.st r.2 == .done | none => true)
 
+/-- a member iterator owned by a set's generator: `iter(x)` has not run yet -/
+def subIter : Cache.Iter := { q := .iterAll, pc := .l106 }
+
+/-- append one owned iterator per cached member slot to the member machines; owned iterator k ↦ (member, thread id) -/
+def addSubs : List Cache.State → List Nat → List Cache.State × List (Nat × Tid)
+  | ms, [] => (ms, [])
+  | ms, m :: rest =>
+    match ms[m]? with
+    | none => addSubs ms rest
+    | some M =>
+      let r := addSubs (ms.set m { M with its := M.its ++ [subIter] }) rest
+      (r.1, (m, M.its.length) :: r.2)
+
+/-- the sets, one after the other (set number `si` is object `nM + si`) -/
+def addSets (srcOf : Nat → List Int) (direct : Nat → List Query) (nM : Nat) :
+    List Cache.State → Nat → List (List Slot × List Slot) → List Cache.State × List SetM
+  | ms, _, [] => (ms, [])
+  | ms, si, d :: rest =>
+    let pm := planOf srcOf d.1 d.2
+    let a := addSubs ms (subMembers d.1 d.2)
+    let r := addSets srcOf direct nM a.1 (si + 1) rest
+    (r.1, { st := Cache.init pm.2 (direct (nM + si)), plan := pm.1, subs := a.2 } :: r.2)
+
 /-- build: member rules (their sequences), sets over them, and the runners' consumers -/
 def init (memberSrcs : List (List Int)) (setDefs : List (List Slot × List Slot)) (qs : List (Nat × Query))
     (shared : Bool := false) : NState × List Runner :=
@@ -243,23 +266,12 @@ def init (memberSrcs : List (List Int)) (setDefs : List (List Slot × List Slot)
   let direct (obj : Nat) : List Query := (qs.filter (fun p => p.1 == obj)).map (·.2)
   let members0 : List Cache.State := (List.range nM).map (fun m => Cache.init (srcOf m) (direct m))
   -- owned iterators: appended to the member machines, set by set
-  let (members, sets) := (List.range setDefs.length).foldl
-    (fun (acc : List Cache.State × List SetM) si =>
-      let (inc, exc) := setDefs.getD si ([], [])
-      let (plan, merged) := planOf srcOf inc exc
-      let (ms, subs) := (subMembers inc exc).foldl
-        (fun (a : List Cache.State × List (Nat × Tid)) m =>
-          match a.1[m]? with
-          | none => a
-          | some M => (a.1.set m { M with its := M.its ++ [{ q := .iterAll, pc := .l106 }] }, a.2 ++ [(m, M.its.length)]))
-        (acc.1, [])
-      (ms, acc.2 ++ [{ st := Cache.init merged (direct (nM + si)), plan := plan, subs := subs }]))
-    (members0, [])
+  let r := addSets srcOf direct nM members0 0 setDefs
   -- runner ids: for each query in order, its thread index among the direct threads of its object
   let runners := (List.range qs.length).map (fun i =>
     let obj := (qs.getD i (0, .iterAll)).1
     (obj, ((qs.take i).filter (fun p => p.1 == obj)).length))
-  ({ members := members, sets := sets, shared := shared }, runners)
+  ({ members := r.1, sets := r.2, shared := shared }, runners)
 
 /-- some runner is unfinished and none can move -/
 def deadlocked (ns : NState) (rs : List Runner) : Bool :=
